@@ -23,11 +23,14 @@ def _listing(top, skip=None):
     return out
 
 
-def histories(ctx, model_ok, tmp, mode):
-    from lsst.daf.butler import Butler, DatasetExistence, DatasetRef, DatasetType, FileDataset
+def histories(ctx, model_ok, tmp, mode, trust=False):
+    """`trust=True`: the datastore is configured with trust_get_request (it may guess locations of datasets it has no records
+    for); the histories then also hold datasets without records — registered only, or stored and then forgotten — and removal
+    calls mix them with recorded ones.  Those histories are decided by the reference-set oracle only (the model has no trust mode)."""
+    from lsst.daf.butler import Butler, Config, DatasetExistence, DatasetRef, DatasetType, FileDataset
 
     rng = ctx.rng
-    area = os.path.join(tmp, "area")
+    area = os.path.join(tmp, "area-trust" if trust else "area")
     root = os.path.join(area, "in", "repo")
     ext = os.path.join(area, "ext")
     os.makedirs(os.path.join(area, "in"))
@@ -36,8 +39,12 @@ def histories(ctx, model_ok, tmp, mode):
         fh.write("do not touch\n")
     N = 1500 if ctx.quick() else 60000
     n_hist = (40 if mode == "C09" else 10) if ctx.quick() else 600
+    if trust:
+        n_hist = 14 if ctx.quick() else 200
 
     def furnish(path, run):
+        if trust:
+            Butler.makeRepo(path, config=Config({"datastore": {"trust_get_request": True}}))
         bb = repo.make_butler(path, run=run)
         bb.registry.insertDimensionData("instrument", {"name": "I"})
         bb.registry.insertDimensionData("detector", *[{"instrument": "I", "id": i, "full_name": f"d{i}"} for i in range(1, N)])
@@ -46,6 +53,8 @@ def histories(ctx, model_ok, tmp, mode):
         return bb, d
 
     b, dt = furnish(root, "base")
+    if trust and not getattr(b._datastore, "trustGetRequest", False):
+        ctx.broken.append("harness: the datastore is not in trust mode")
     src, _ = furnish(os.path.join(area, "src"), "base")
     absroot = os.path.abspath(root)
     req, impl = [], []
@@ -69,6 +78,7 @@ def histories(ctx, model_ok, tmp, mode):
             req.append("art new"), impl.append("ok")
         refs, content, art, kind_of, run_of = {}, {}, {}, {}, {}
         live, trashed = set(), set()  # datastore's view: stored / moved to trash and not yet emptied
+        orphan = set()  # trust mode: registered datasets the datastore has no records for (their artifact may or may not exist)
         registered = set()
         ext_files = {}  # path -> hash, files behind absolute URIs
         ops = []
@@ -80,7 +90,61 @@ def histories(ctx, model_ok, tmp, mode):
             r = rng.random()
             line = None
             stored_now = sorted(live)
-            if r < 0.16 or not stored_now:
+            r2 = rng.random()
+            if stored_now and r2 < 0.07:
+                # a batch that names an already stored dataset again, next to a new one, with a copying transfer: it must be
+                # refused and must change nothing (in particular it must not replace or remove the stored artifact)
+                cands = [i for i in stored_now if kind_of[i] == "plain"]
+                if not cands:
+                    continue
+                d_old = rng.choice(cands)
+                nid += 1
+                i = nid
+                how = rng.choice(["copy", "copy", "auto", "link", "move"])
+                f_new, f_old = os.path.join(ext, f"again_new{i}.yaml"), os.path.join(ext, f"again_old{i}.yaml")
+                for f_, n_ in ((f_new, i), (f_old, -i)):
+                    with open(f_, "w") as fh:
+                        fh.write(f"n: {n_}\n")
+                batch = [FileDataset(path=f_new, refs=[DatasetRef(dt, {"instrument": "I", "detector": i}, run=run_of[d_old])]),
+                         FileDataset(path=f_old, refs=[refs[d_old]])]
+                if rng.random() < 0.5:
+                    batch.reverse()
+                try:
+                    b.ingest(*batch, transfer=how)
+                    refused = False
+                except Exception:
+                    refused = True
+                ops.append(f"reingest-overlap-{how} new={i} stored={d_old}")
+                ctx.count("reingest-overlap:" + ("refused" if refused else "accepted"))
+                for f_ in (f_new, f_old):
+                    if os.path.exists(f_):
+                        os.remove(f_)
+                    elif refused:
+                        viol(f"a refused ingest({how}) removed its source file {os.path.basename(f_)}", f"reingest-src:{ops}", {"kind": "art-history", "ops": ops})
+                if not refused:
+                    viol(f"ingest({how}) of a batch naming the stored dataset {d_old} again was accepted", f"reingest-accepted:{ops}", {"kind": "art-history", "ops": ops})
+                    break
+                line = None
+            elif trust and r2 < 0.17:
+                # a dataset the registry knows and the datastore has no records for
+                nid += 1
+                i = nid
+                run = rng.choice(runs)
+                rf = DatasetRef(dt, b.registry.expandDataId(instrument="I", detector=i), run=run)
+                b.registry._importDatasets([rf])
+                refs[i], content[i], art[i], kind_of[i], run_of[i] = rf, None, None, "none", run
+                registered.add(i), orphan.add(i)
+                line = None
+                ops.append(f"register-only {i}")
+            elif trust and r2 < 0.24 and [i for i in stored_now if kind_of[i] == "plain" and sum(1 for j in refs if art[j] == art[i]) == 1]:
+                # stored, then forgotten: the artifact stays where the template puts it, the records are gone
+                i = rng.choice([i for i in stored_now if kind_of[i] == "plain" and sum(1 for j in refs if art[j] == art[i]) == 1])
+                b._datastore.forget([refs[i]])
+                live.discard(i), orphan.add(i)
+                kind_of[i] = "forgotten"
+                line = None
+                ops.append(f"forget {i}")
+            elif r < 0.16 or not stored_now:
                 nid += 1
                 i = nid
                 run = rng.choice(runs)
@@ -176,19 +240,39 @@ def histories(ctx, model_ok, tmp, mode):
                 ops.append(f"ingest-zip {ids}")
             elif r < 0.80:
                 # prune 1-3 stored datasets, preferably chosen across different artifacts and leaving siblings behind
-                k = min(len(stored_now), rng.choice([1, 1, 2, 2, 3]))
-                ids = rng.sample(stored_now, k)
+                pool = stored_now + sorted(orphan)
+                k = min(len(pool), rng.choice([1, 1, 2, 2, 3]) + (1 if orphan else 0))
+                ids = rng.sample(pool, k)
+                if orphan and not (set(ids) & orphan):
+                    ids[0] = rng.choice(sorted(orphan))
+                    ids = sorted(set(ids))
                 purge = rng.random() < 0.6
+                try:
+                    if purge:
+                        b.pruneDatasets([refs[i] for i in ids], purge=True, unstore=True, disassociate=True)
+                    else:
+                        b.pruneDatasets([refs[i] for i in ids], unstore=True, disassociate=False, purge=False)
+                except Exception as e:
+                    # a removal that is refused has removed nothing: the reference sets stay as they are and the observation
+                    # below judges what is on disk against them
+                    ops.append(f"{'purge' if purge else 'unstore'}-raised-{type(e).__name__} {ids}")
+                    ctx.count("prune-raised")
+                    ids = []
+                    purge = False
                 if purge:
-                    b.pruneDatasets([refs[i] for i in ids], purge=True, unstore=True, disassociate=True)
                     registered.difference_update(ids)
-                else:
-                    b.pruneDatasets([refs[i] for i in ids], unstore=True, disassociate=False, purge=False)
                 live.difference_update(ids)
+                for i in set(ids) & orphan:
+                    # a record-less dataset that is unstored has no artifact any more (trust mode removes the guessed file);
+                    # when purged it is gone altogether
+                    kind_of[i] = "none"
+                    if purge:
+                        orphan.discard(i)
                 trashed.clear()
-                req.append(f"art trash {','.join(map(str, ids))}"), impl.append("ok")
+                if ids:
+                    req.append(f"art trash {','.join(map(str, ids))}"), impl.append("ok")
+                    ops.append(f"{'purge' if purge else 'unstore'} {ids}")
                 line = "art empty"
-                ops.append(f"{'purge' if purge else 'unstore'} {ids}")
             elif r < 0.86:
                 ids = rng.sample(stored_now, min(len(stored_now), rng.choice([1, 2])))
                 b._datastore.trash([refs[i] for i in ids])
@@ -204,15 +288,25 @@ def histories(ctx, model_ok, tmp, mode):
             else:
                 run = rng.choice(runs)
                 ids = sorted(i for i in registered if run_of[i] == run)
+                if trust and set(ids) - live - trashed:
+                    # removeRuns looks its datasets up without dimension records, which a trusting datastore cannot format
+                    continue
                 b.removeRuns([run], unstore=True)
                 b.registry.registerRun(run)
                 registered.difference_update(ids)
                 live.difference_update(ids)
+                orphan.difference_update(ids)
                 trashed.clear()
                 req.append(f"art trash {','.join(map(str, ids)) or '-'}"), impl.append("ok")
                 line = "art empty"
                 ops.append(f"removeRuns {run[-1]} {ids}")
-            req.append(line), impl.append("ok")
+            if line is not None:
+                req.append(line), impl.append("ok")
+            if trust:
+                # a datastore in trust mode formats the file template itself: it needs expanded data ids
+                for i in refs:
+                    if not refs[i].dataId.hasRecords():
+                        refs[i] = refs[i].expanded(b.registry.expandDataId(refs[i].dataId))
             ctx.evaluations += 1
             ctx.count(ops[-1].split()[0])
 
@@ -227,8 +321,11 @@ def histories(ctx, model_ok, tmp, mode):
             for i in live | trashed:
                 if kind_of[i] != "direct":
                     owners.setdefault(art[i], set()).add(i)
+            for i in orphan:
+                if kind_of[i] == "forgotten":
+                    owners.setdefault(art[i], set()).add(i)
             shared_partial = any(len({j for j in refs if art[j] == p and kind_of[j] != "direct"}) > len(o) for p, o in owners.items())
-            partial = partial or shared_partial
+            partial = partial or shared_partial or (trust and any(o.startswith(("purge", "unstore")) for o in ops) and bool(ext_files or shared_partial))
             problems = []
             for p in set(owners) - set(files):
                 problems.append(f"artifact {p} is gone although datasets {sorted(owners[p])} still refer to it")
@@ -297,8 +394,17 @@ def histories(ctx, model_ok, tmp, mode):
             ctx.nontrivial.add(tuple(ops))
         ctx.sample(ops[:10], cap=3)
         # leave nothing behind for the next history
-        b.removeRuns(runs, unstore=True)
-        b._datastore.emptyTrash()
+        try:
+            if trust and registered - live:
+                b.pruneDatasets([refs[i] for i in sorted(registered - live)], purge=True, unstore=True, disassociate=True)
+            b.removeRuns(runs, unstore=True)
+            b._datastore.emptyTrash()
+        except Exception as e:
+            # the removal of everything a history made is part of the history: what it leaves behind is judged below; a failure
+            # on its own is not a violation of this property, but the next history needs a fresh pair of runs (they have them)
+            ctx.notes.append(f"cleanup after history {h} raised {type(e).__name__}: {str(e)[:120]}")
+            ctx.count("cleanup-raised")
+            continue
         left = [k for k in _listing(root) if "sqlite" not in k and k != "butler.yaml" and not k.startswith("archive/")]
         if left and not any(v.key.startswith("art:") for v in ctx.violations):
             viol(f"after removing both runs of history {ops[-6:]} the root still holds {left[:4]}", f"art-left:{ops}",
@@ -309,7 +415,7 @@ def histories(ctx, model_ok, tmp, mode):
             if os.path.exists(f):
                 os.remove(f)
 
-    if model_ok and mode == "C09":
+    if model_ok and mode == "C09" and not trust:
         got = core.driver(req)
         nd = 0
         for line, m, i in zip(req, got, impl):
